@@ -560,6 +560,20 @@ def rule_batch_dispatch(ctx: Ctx) -> RuleResult:
             for c in body_calls:
                 if not any(c not in ExcEngine._reach_without_edge(cfg, t, "T") for t in tests):
                     rr.add(finding("SNAP", lp, c.stmt, f"`{norm(c.stmt, 50)}` calls the callback of a descriptor from the ready batch without testing that its watch is still in self.{reg}: a watch removed by an earlier callback of the same batch still runs once ({'KeyError out of run()' if key == 'zmq' else 'after remove_watch_file returned True'})", construct="ready batch dispatched without membership test"))
+                    continue
+                # a callback *carried in the snapshot* (record.data) - not looked up afresh in the registry - is the
+                # one registered when the descriptors were polled: the descriptor being watched *again* is not enough,
+                # the registry's current entry has to be this very callback
+                for call in [x for x in ast.walk(c.ast) if isinstance(x, ast.Call) and isinstance(x.func, ast.Attribute) and x.func.attr == "data"]:
+                    carried = ast.unparse(call.func)
+                    ident_ok = any(
+                        c not in ExcEngine._reach_without_edge(cfg, t, "T")
+                        and any(isinstance(q, ast.Compare) and len(q.ops) == 1 and isinstance(q.ops[0], ast.Is) and {True} == {reg in ast.unparse(a) or ast.unparse(a) == carried for a in (q.left, q.comparators[0])} and any(ast.unparse(a) == carried for a in (q.left, q.comparators[0])) and any(reg in ast.unparse(a) for a in (q.left, q.comparators[0])) for q in ast.walk(t.ast))
+                        for t in tests
+                    )
+                    rr.inst(f"{key}._loop carried callback identity", True, {"carried": carried, "identity_test": ident_ok})
+                    if not ident_ok:
+                        rr.add(finding("SNAP", lp, c.stmt, f"`{norm(c.stmt, 50)}` calls the callback recorded when the descriptors were polled under a test that only asks whether the descriptor is (again) in self.{reg}, not whether the registered callback is still `{carried}`: when an earlier callback of the batch removed this watch and watched the descriptor anew, the removed callback still runs (after remove_watch_file returned True) and consumes the input", construct="carried callback dispatched without identity test"))
     return rr
 
 
@@ -846,6 +860,8 @@ from ..mutants import Mut  # noqa: E402
 _S = "urwid/event_loop/select_loop.py"
 _A = "urwid/event_loop/asyncio_loop.py"
 MUTANTS = [
+    Mut("select-batch-guard-membership-only", _S, "SelectEventLoop._loop", "            if self._watch_files.get(record.fd) is record.data:", "            if record.fd in self._watch_files:", "SNAP|event_loop.select_loop.SelectEventLoop._loop|carried callback dispatched without identity test"),
+    Mut("twin-select-batch-guard-is-swapped", _S, "SelectEventLoop._loop", "            if self._watch_files.get(record.fd) is record.data:", "            if record.data is self._watch_files.get(record.fd):", twin=True),
     Mut("asyncio-last-exception-wins", _A, "AsyncioEventLoop._exception_handler", "            if not isinstance(exc, ExitMainLoop) and self._exc is None:", "            if not isinstance(exc, ExitMainLoop):", "GUARD|event_loop.asyncio_loop.AsyncioEventLoop._exception_handler|parked exception overwritten"),
     Mut("twisted-last-exception-wins", "urwid/event_loop/twisted_loop.py", "TwistedEventLoop.handle_exit", "                if self._exc is None:  # callbacks already due still run: report the first exception\n                    self._exc = exc\n", "                self._exc = exc\n", "GUARD|event_loop.twisted_loop.TwistedEventLoop.handle_exit.<locals>.wrapper|parked exception overwritten"),
     Mut("tornado-parks-under-or", "urwid/event_loop/tornado_loop.py", "TornadoEventLoop.handle_exit", "                if self._exc is None:  # callbacks already due still run: report the first exception\n", "                if self._exc is None or exc:\n", "GUARD|event_loop.tornado_loop.TornadoEventLoop.handle_exit.<locals>.wrapper|parked exception overwritten"),
